@@ -313,6 +313,27 @@ macro_rules! g_eq {
         Some(|a: II, b: II| Some(mk(a)? == mk(b)?))
     };
 }
+/// one object on both sides: (`x == x`, `x != x`)
+#[macro_export]
+macro_rules! g_eq_self {
+    () => {
+        Some(|a: II| {
+            let t = mk(a)?;
+            let (l, r) = (&t, &t);
+            Some((l == r, l != r))
+        })
+    };
+}
+#[macro_export]
+macro_rules! g_partial_cmp_self {
+    () => {
+        Some(|a: II| {
+            let t = mk(a)?;
+            let (l, r) = (&t, &t);
+            Some(l.partial_cmp(r))
+        })
+    };
+}
 #[macro_export]
 macro_rules! g_partial_cmp {
     () => {
